@@ -289,6 +289,7 @@ def gen_case(rng, dtypes):
                 perm.append(lists[j].pop(0))
         case["perm"] = perm
     case["direct"] = bool(rng.random() < 0.3)
+    common.add_route(rng, case, 0.2)
     case["pseed"] = int(rng.integers(1 << 30))
     if mask is not None and mask["kind"] == "bool_series" and case["vc"] != "pd":
         mask["kind"] = "bool"
